@@ -248,8 +248,8 @@ func (dec *xmlReader) Type() Type {
 			if ty, ok := typeFromName(attr.Value); ok {
 				return ty
 			}
-			//TODO: return error
-			panic("Invalid type")
+			// Unknown type name: report an invalid type, which no getter accepts.
+			return typeInvalid
 		}
 	}
 	return TypeStructure
